@@ -201,7 +201,7 @@ def generate(outdir, repo_include_dirs):
         raise SystemExit("BUILD-ERROR: cannot dump the AST of <tins/tins.h>")
     recs = collect(load_docs(p.stdout))
     lines = ["// generated by lib/gen_api.py from the current libtins headers; do not edit"]
-    for m in ("API_CLASS(Q,T,P,A,D,B)", "API_BASE(Q,T,BQ)", "API_BUFCTOR(Q,T)", "API_GETTER(Q,T,N,R)", "API_PAIR(Q,T,N,A,R)",
+    for m in ("API_CLASS(Q,T,P,A,D,B)", "API_BASE(Q,T,BQ)", "API_BUFCTOR(Q,T)", "API_GETTER(Q,T,N,R)", "API_GETTER_NC(Q,T,N,R)", "API_PAIR(Q,T,N,A,R)",
               "API_STRUCT_BEGIN(Q,T)", "API_FIELD(Q,N)", "API_FIELD_P(Q,N)", "API_FIELD_A(Q,N)", "API_FIELD_B(Q,N)", "API_STRUCT_END(Q,T)", "API_VSTRUCT_BEGIN(Q,T)", "API_VGETTER(Q,N)", "API_VSTRUCT_END(Q,T)"):
         name = m.split("(")[0]
         lines.append("#ifndef %s\n#define %s\n#endif" % (name, m))
@@ -223,20 +223,27 @@ def generate(outdir, repo_include_dirs):
             if buf and not r.abstract:
                 stats["bufctors"] += 1
                 lines.append("API_BUFCTOR(%s, %s)" % (q, tag))
-        getters, setters = {}, {}
+        getters, setters, nc_getters = {}, {}, {}
         for (name, t, acc, static, pure, nparams, _) in r.methods:
             if acc != "public" or static or not name or name.startswith("operator"):
                 continue
             if nparams == 0 and t.rstrip().endswith("const") and ret_of(t) != "void":
                 getters.setdefault(name, []).append(ret_of(t))
+            elif nparams == 0 and ret_of(t) != "void" and name not in SKIP_GETTERS:
+                nc_getters.setdefault(name, []).append(ret_of(t))      # getters that were not declared const (LLC)
             elif nparams == 1 and ret_of(t) == "void" and not t.rstrip().endswith("const"):
                 setters.setdefault(name, []).append(arg_of(t))
+        nc_only = set()
+        for name in list(nc_getters):
+            if name not in getters and len(nc_getters[name]) == 1:
+                getters[name] = nc_getters[name]
+                nc_only.add(name)
         if is_pdu and q != "Tins::PDU":
             for name in sorted(getters):
                 if name in SKIP_GETTERS or len(getters[name]) != 1:
                     continue
                 stats["getters"] += 1
-                lines.append('API_GETTER(%s, %s, %s, "%s")' % (q, tag, name, getters[name][0]))
+                lines.append('API_GETTER%s(%s, %s, %s, "%s")' % ("_NC" if name in nc_only else "", q, tag, name, getters[name][0]))
             for name in sorted(setters):
                 if name in getters and len(setters[name]) == 1 and len(getters[name]) == 1 and name not in r.template_methods:
                     stats["pairs"] += 1
